@@ -33,7 +33,8 @@ from explorerscript.ssb_converting.compiler.compile_handlers.abstract import Any
 from explorerscript.ssb_converting.compiler.compile_handlers.functions.macro_def import MacroDefCompileHandler
 from explorerscript.ssb_converting.compiler.compiler_visitor.statement_visitor import StatementVisitor
 from explorerscript.ssb_converting.compiler.utils import CompilerCtx, Counter
-from explorerscript.util import _
+from explorerscript.ssb_converting.ssb_special_ops import SsbLabel, SsbLabelJump
+from explorerscript.util import _, f
 
 
 class MacroVisitor(ExplorerScriptVisitor):
@@ -84,6 +85,11 @@ class MacroVisitor(ExplorerScriptVisitor):
 
         blueprints = self._root_handler.collect()
         name = self._root_handler.get_name()
+        # The labels of a macro are private to it: what it jumps to, it has to define (also if it is never called).
+        defined_labels = {op.id for op in blueprints if isinstance(op, SsbLabel)}
+        for op in blueprints:
+            if isinstance(op, SsbLabelJump) and op.label is not None and op.label.id not in defined_labels:
+                raise SsbCompilerError(f(_("Macro {name}: Jump or call to a label that the macro does not define.")))
         variables = self._root_handler.get_variables()
 
         return ExplorerScriptMacro(name, variables, blueprints, self.source_map_builder.build())
